@@ -238,6 +238,28 @@ def _variant_arms(F, B, b):
     return None
 
 
+def _released_types(F, b, blocks, gmap, depth):
+    """Type arguments (as written in terms of the outermost caller's parameters) at which `Arc::from_raw` is called in the given
+    blocks of body b, following calls of private local helpers with their generic arguments substituted."""
+    out = []
+    for bi in blocks:
+        t = b["blocks"][bi]["term"]
+        if t["k"] != "call":
+            continue
+        c = atomics.callee_of(t)
+        cb = F.body(c) if c else None
+        r = t.get("resolved")
+        ga = [F.ts(a["t"]) for a in (r["args"] if isinstance(r, dict) else t.get("callee_args") or []) if "t" in a]
+        ga = [gmap.get(x, x) for x in ga]
+        if cb is not None and cb.get("name") == "from_raw" and F.handle_name((cb.get("impl") or {}).get("self_ty", -1)) == "Arc":
+            out.append(ga[0] if ga else "?")
+        elif cb is not None and depth < 3 and not balance.is_api(F, cb):
+            names = [g["name"] for g in cb.get("generics", []) if g["kind"] == "type"]
+            sub = dict(zip(names, ga))
+            out += _released_types(F, cb, range(len(cb["blocks"])), sub, depth + 1)
+    return out
+
+
 def _arms(F, A, rep, tag, gen):
     spec = {
         ("ArcUnion", "clone", "Clone"): {"First": [("clone_arc", gen[0]), ("from_first", None)], "Second": [("clone_arc", gen[1]), ("from_second", None)]},
@@ -263,6 +285,13 @@ def _arms(F, A, rep, tag, gen):
                         r = t.get("resolved")
                         ga = [F.ts(a["t"]) for a in (r["args"] if isinstance(r, dict) else []) if "t" in a]
                         got.append((nm, ga))
+                if m == "drop":
+                    # what matters: the arm gives up exactly an `Arc` of its own type - directly or inside a private helper
+                    rel = _released_types(F, b, excl[variant], {}, 0)
+                    want_ty = calls[0][1]
+                    if rel != [want_ty]:
+                        good, why = False, "the %s arm must rebuild (and so release) exactly one Arc<%s>; it rebuilds %s" % (variant, want_ty, rel or "nothing")
+                    continue
                 for nm, ty in calls:
                     hits = [g for g in got if g[0] == nm]
                     if not hits:
@@ -321,6 +350,26 @@ def _arms(F, A, rep, tag, gen):
                 cmps.append(vs)
                 if len(vs) == 2 and vs[0] != vs[1]:
                     good, why = False, "compares a %s with a %s" % (vs[0], vs[1])
+            # `other.as_first().map_or(false, |y| x == y)`: the default is a constant answer, the closure holds the comparison
+            if (atomics.callee_of(t) or "").endswith("::map_or") and len(t["args"]) >= 2:
+                v = B.const_value(t["args"][1])
+                if v is not None:
+                    consts.append(v)
+        # comparisons written inside closures of this function: both sides must be borrows of the same payload type
+        tcmps = []
+        for cb in F.body_list:
+            if cb["kind"] == "Closure" and cb.get("owner") == b["key"]:
+                for _bi, t in cfg.Body(cb).calls():
+                    if t.get("callee_trait") == "core::cmp::PartialEq" and len(t.get("arg_tys", [])) == 2:
+                        x, y = (F.ts(F.strip_refs(i)) for i in t["arg_tys"])
+                        tcmps.append((x, y))
+                        if x != y:
+                            good, why = False, "compares a %s with a %s" % (x, y)
+        if tcmps and not cmps:
+            seen_ty = set(x for x, _y in tcmps)
+            if not (any(gen[0] in x for x in seen_ty) and any(gen[1] in x for x in seen_ty)):
+                good, why = False, "expected one value comparison per variant, found comparisons at %s" % sorted(seen_ty)
+            cmps = [None, None]
         if not consts or any(v != 0 for v in consts):
             good, why = False, "mixed variants do not answer the constant `false` (constants assigned to the result: %s)" % consts
         if len(cmps) < 2:
